@@ -1,7 +1,7 @@
 ---- MODULE MC_Stream ----
 EXTENDS Stream
 View == <<topics, selfT, active, q, qlen, pc, pk, snap, n, got, iters, kop, ks, kops, kflag,
-          must, mustnot, inflight, pubdone, stableSub, stableUnsub, dead, delivered, panicked, lastRes>>
+          must, mustnot, inflight, pubdone, stableSub, stableUnsub, dead, delivered, tgen, kgen, panicked, lastRes>>
 Ranks == [p \in Pubs |-> IF p = "p1" THEN 1 ELSE IF p = "p2" THEN 2 ELSE 3]
 \* drainers d1, d2 drain s1; d3 drains s2
 DrainMap == [d \in Drainers |-> IF d = "d3" THEN "s2" ELSE "s1"]
